@@ -5,6 +5,8 @@ type   ::= u<w> | i<w> | b | c | s | O(<type>) | V(<type>) | T(<type>,..) | E(<t
 value  ::= u<w>:<n> | i<w>:<z> | b:0 | b:1 | c:<codepoint> | s:<hex> | N | S(<value>)
          | [<value>;..] | (<value>,..) | #<k><value>
 bytes  ::= lower-case hex, `-` for the empty string
+cvalue ::= R<n>*<value> | Z<n>*<codepoint> | S(<cvalue>) | #<k><cvalue>
+         | (<value>,..,@<cvalue>,<value>,..) | [<value>;..;@<cvalue>;<value>;..]      (compact large value)
 -/
 import HvNet.Model.Net
 namespace HvNet.Wire
@@ -120,6 +122,55 @@ partial def parseValList (sep close : Char) (cs : List Char) : Option (List Val 
       else none
     | _ => none
 end
+
+
+/-- `value sep value sep @cvalue sep value close`, exactly one `@` element -/
+partial def parseCVal (cs : List Char) : Option (CVal × List Char) :=
+  match cs with
+  | 'R' :: r =>
+    match takeNat r with
+    | some (n, '*' :: r) => (parseVal r).map fun (v, r) => (.rep n v, r)
+    | _ => none
+  | 'Z' :: r =>
+    match takeNat r with
+    | some (n, '*' :: r) => (takeNat r).map fun (c, r) => (.srep n c, r)
+    | _ => none
+  | 'S' :: '(' :: r =>
+    match parseCVal r with
+    | some (c, ')' :: r) => some (.some c, r)
+    | _ => none
+  | '#' :: r =>
+    match takeNat r with
+    | some (k, r) => (parseCVal r).map fun (c, r) => (.variant k c, r)
+    | none => none
+  | '(' :: r => (elems ',' ')' r [] none []).map fun (pre, c, post, r) => (.tupAt (valsOfList pre) c (valsOfList post), r)
+  | '[' :: r => (elems ';' ']' r [] none []).map fun (pre, c, post, r) => (.vecAt (valsOfList pre) c (valsOfList post), r)
+  | _ => none
+where
+  elems (sep close : Char) (cs : List Char) (pre : List Val) (mid : Option CVal) (post : List Val) :
+      Option (List Val × CVal × List Val × List Char) :=
+    let continue_ (cs : List Char) (pre : List Val) (mid : Option CVal) (post : List Val) :=
+      match cs with
+      | c :: r =>
+        if c == close then (mid.map fun m => (pre.reverse, m, post.reverse, r))
+        else if c == sep then elems sep close r pre mid post
+        else none
+      | [] => none
+    match cs with
+    | '@' :: r =>
+      if mid.isSome then none else
+      match parseCVal r with
+      | some (c, r) => continue_ r pre (some c) post
+      | none => none
+    | _ =>
+      match parseVal cs with
+      | some (v, r) => if mid.isSome then continue_ r pre mid (v :: post) else continue_ r (v :: pre) mid post
+      | none => none
+
+def parseCValStr (s : String) : Option CVal :=
+  match parseCVal s.toList with
+  | some (c, []) => some c
+  | _ => none
 
 def parseTyStr (s : String) : Option Ty :=
   match parseTy s.toList with
